@@ -260,6 +260,12 @@ func builtinJSONStringifyWalk(ctx builtinJSONStringifyContext, key string, holde
 					panic(ctx.call.runtime.panicTypeError("Converting circular structure to JSON"))
 				}
 			}
+			// The walk recurses in Go once per nesting level (toJSON and replacer
+			// functions can make the structure endless): it counts against the
+			// configured stack depth limit like nested calls do.
+			if rt := ctx.call.runtime; rt.stackLimit != 0 && len(ctx.stack) >= rt.stackLimit {
+				panic(rt.panicRangeError("Maximum call stack size exceeded"))
+			}
 			ctx.stack = append(ctx.stack, value)
 			defer func() { ctx.stack = ctx.stack[:len(ctx.stack)-1] }()
 		}
